@@ -455,7 +455,7 @@ func checkClosures(c *Ctx) {
 			}
 		}
 	}
-	R.Floor("R14.2:spawn-sites", nspawn, 6)
+	R.Floor("R14.2:spawn-sites", nspawn, 3)
 }
 
 // checkPointeeFields is the type-keyed complement of R14.1. Access-path names cannot see that two paths lead to one object
